@@ -245,7 +245,11 @@ let handle (line : string) : unit =
      let sched = L.map action_ (field "sched" f) in
      let r = run_case p sched in
      let bs = L.map snd (L.map node_ (field "nodes" f)) in
-     let (is_plain, (orders_valid, orders_by_depth)) = plain_hyps_case ds bs (L.map kv_ (field "input" f)) p in
+     (* hypotheses of the theorems over all plain programs, on request: (hyps 1) plain + valid orders, (hyps 2) also depth-sorted *)
+     let level = (try (match field "hyps" f with [v] -> int_of_nat (nat_ v) | _ -> 0) with _ -> 0) in
+     let is_plain = level >= 1 && is_plain_case ds bs (L.map kv_ (field "input" f)) in
+     let orders_valid = is_plain && valid_orders_case p in
+     let orders_by_depth = level >= 2 && orders_valid && by_depth_case p in
      pr "{\"outcome\":"; pmain r.r_main;
      pr ",\"deadlock\":"; pbool r.r_deadlock;
      pr ",\"trace\":"; plist pobs r.r_trace;
@@ -256,6 +260,7 @@ let handle (line : string) : unit =
      pr ",\"ready\":"; pi (int_of_nat r.r_ready);
      pr ",\"pending\":"; plist pgate r.r_pending;
      pr ",\"fuel\":"; pbool r.r_fuel;
+     pr ",\"hyps\":"; pi level;
      pr ",\"plain\":"; pbool is_plain;
      pr ",\"orders_valid\":"; pbool orders_valid;
      pr ",\"orders_by_depth\":"; pbool orders_by_depth;
